@@ -174,7 +174,7 @@ structure DSt where
   st : Option St := none
   dead : Option String := none          -- the model reached undefined behaviour
   scr : Tab := {}
-  mode : Nat := 0                        -- 0 accept, 1 partial, 2 refuse
+  mode : Nat := 0                        -- 0 accept, 1 partial, 2 refuse, 3 the library's mock terminal (its rule = partial)
   behs : Array (Option (List Instr)) := #[]
   shifts : Array (List (Rect × Int × Int)) := #[]
   closed : Array Bool := #[]
@@ -404,7 +404,8 @@ def parsePen (tok : String) : Option Pen :=
     | _, _, _ => some {}
   | _ => some {}
 
-def modeOf (s : String) : Nat := if s.startsWith "a" then 0 else if s.startsWith "p" then 1 else 2
+def modeOf (s : String) : Nat :=
+  if s.startsWith "a" then 0 else if s.startsWith "p" then 1 else if s.startsWith "m" then 3 else 2
 
 /-- Re-tabulate the screen and store the state. -/
 def commit (d : DSt) (st : St) : DSt :=
@@ -462,12 +463,12 @@ def runOp (d : DSt) (ts : List String) : DSt × String :=
     | ["resize", lines, cols] =>
       match ints? [lines, cols] with
       | some [l, c] =>
-        if l < 1 ∨ c < 1 ∨ l > 64 ∨ c > 120 then (d, "bad-op") else
+        if l < 1 ∨ c < 1 ∨ l > 64 ∨ c > 120 ∨ d.mode = 3 then (d, "bad-op") else
         match termResize st l c with
         | .ub w => fail d w
         | .ok st => finishOk d st 0 none true
       | _ => (d, "bad-op")
-    | ["scrollmode", m] => finishOk { d with mode := modeOf m } st 0 none false
+    | ["scrollmode", m] => if d.mode = 3 then (d, "bad-op") else finishOk { d with mode := modeOf m } st 0 none false
     | op :: idS :: rest =>
       match idS.toNat? with
       | none => (d, "bad-op")
